@@ -107,21 +107,21 @@ Definition rp_rollback (v : rp_variant) (s : rp_state) : rp_state :=
 
 (* what arrives: the sequence number in the Partial IV, whether the AEAD tag verifies under the
    recipient key, and (for a message that decrypts) what its inner Echo option looks like *)
-Inductive rp_auth := Genuine | Forged.
-Inductive rp_echo := EchoNone | EchoOk | EchoBad.
+Inductive rp_auth := RpGenuine | RpForged.
+Inductive rp_echo := RpEchoNone | RpEchoOk | RpEchoBad.
 Record rp_msg := { rp_m_seq : Z; rp_m_auth : rp_auth; rp_m_echo : rp_echo }.
 
 Inductive rp_verdict :=
-| Accept        (* decrypted PDU returned: the request reaches the handler *)
-| RejReplay     (* 4.01 "Replay detected" *)
-| RejDecrypt    (* 4.00 "Decryption failed" *)
-| RejChallenge  (* B.1.2: 4.01 with a fresh Echo value *)
-| RejEchoBad.   (* B.1.2: Echo present but wrong: dropped *)
+| RpAccept        (* decrypted PDU returned: the request reaches the handler *)
+| RpRejReplay     (* 4.01 "Replay detected" *)
+| RpRejDecrypt    (* 4.00 "Decryption failed" *)
+| RpRejChallenge  (* B.1.2: 4.01 with a fresh Echo value *)
+| RpRejEchoBad.   (* B.1.2: Echo present but wrong: dropped *)
 
 (* the validation done after decryption while the context is in its initial state *)
 Definition rp_arm (v : rp_variant) (W : Z) (s : rp_state) (seq : Z) : rp_verdict * rp_state :=
   let '(ok, s1) := rp_validate v W s seq in
-  if ok then (Accept, s1) else (RejReplay, s1).
+  if ok then (RpAccept, s1) else (RpRejReplay, s1).
 
 (* one request through coap_oscore_decrypt_pdu, in the order of the C *)
 Definition rp_recv (v : rp_variant) (W : Z) (b12 : bool) (s : rp_state) (m : rp_msg)
@@ -129,25 +129,25 @@ Definition rp_recv (v : rp_variant) (W : Z) (b12 : bool) (s : rp_state) (m : rp_
   let seq := rp_m_seq m in
   (* 8.2 step 3: if (rcp_ctx->initial_state == 0 && !oscore_validate_sender_seq(...)) *)
   let '(ok, s1) := if rp_initial s then (true, s) else rp_validate v W s seq in
-  if negb ok then (RejReplay, s1)
+  if negb ok then (RpRejReplay, s1)
   else
     (* as found: rcp_ctx->last_seq = incoming_seq; *)
     let s2 := if rp_v_nooverwrite v then s1
               else Build_rp_state seq (rp_win s1) (rp_rb_last s1) (rp_rb_win s1)
                                   (rp_initial s1) (rp_undef s1) in
     match rp_m_auth m with
-    | Forged => (RejDecrypt, rp_rollback v s2)       (* 8.2 step 6 fails *)
-    | Genuine =>
+    | RpForged => (RpRejDecrypt, rp_rollback v s2)       (* 8.2 step 6 fails *)
+    | RpGenuine =>
       if rp_initial s2 then
         if b12 then
           match rp_m_echo m with
-          | EchoOk => rp_arm v W s2 seq
-          | EchoBad => (RejEchoBad, s2)
-          | EchoNone => (RejChallenge, s2)
+          | RpEchoOk => rp_arm v W s2 seq
+          | RpEchoBad => (RpRejEchoBad, s2)
+          | RpEchoNone => (RpRejChallenge, s2)
           end
         else if rp_v_arm v then rp_arm v W s2 seq
-        else (Accept, s2)
-      else (Accept, s2)
+        else (RpAccept, s2)
+      else (RpAccept, s2)
     end.
 
 (* a history: verdict of every step and the final state *)
@@ -160,7 +160,7 @@ Fixpoint rp_run (v : rp_variant) (W : Z) (b12 : bool) (s : rp_state) (h : list r
   end.
 
 Definition rp_is_accept (r : rp_verdict) : bool :=
-  match r with Accept => true | _ => false end.
+  match r with RpAccept => true | _ => false end.
 
 (* the sequence numbers that reached the handler, in order of arrival *)
 Fixpoint rp_accepted_of (h : list rp_msg) (rs : list rp_verdict) : list Z :=
@@ -177,7 +177,7 @@ Definition rp_accepted (v : rp_variant) (W : Z) (b12 : bool) (s : rp_state) (h :
 Definition rp_obs (s : rp_state) : Z * Z * bool := (rp_last s, rp_win s, rp_initial s).
 
 Definition rp_is_genuine (m : rp_msg) : bool :=
-  match rp_m_auth m with Genuine => true | Forged => false end.
+  match rp_m_auth m with RpGenuine => true | RpForged => false end.
 
 (* verdicts of the genuine messages only *)
 Fixpoint rp_genuine_verdicts (h : list rp_msg) (rs : list rp_verdict) : list rp_verdict :=
@@ -219,21 +219,21 @@ Definition rp_abs_accept (a : rp_abs) (seq : Z) : rp_abs :=
 Definition rp_abs_recv (W : Z) (b12 : bool) (a : rp_abs) (m : rp_msg) : rp_verdict * rp_abs :=
   let seq := rp_m_seq m in
   if rp_a_armed a then
-    if negb (rp_abs_fresh W a seq) then (RejReplay, a)
+    if negb (rp_abs_fresh W a seq) then (RpRejReplay, a)
     else match rp_m_auth m with
-         | Forged => (RejDecrypt, a)
-         | Genuine => (Accept, rp_abs_accept a seq)
+         | RpForged => (RpRejDecrypt, a)
+         | RpGenuine => (RpAccept, rp_abs_accept a seq)
          end
   else
     match rp_m_auth m with
-    | Forged => (RejDecrypt, a)
-    | Genuine =>
-      let go := if rp_abs_fresh W a seq then (Accept, rp_abs_accept a seq) else (RejReplay, a) in
+    | RpForged => (RpRejDecrypt, a)
+    | RpGenuine =>
+      let go := if rp_abs_fresh W a seq then (RpAccept, rp_abs_accept a seq) else (RpRejReplay, a) in
       if b12 then
         match rp_m_echo m with
-        | EchoOk => go
-        | EchoBad => (RejEchoBad, a)
-        | EchoNone => (RejChallenge, a)
+        | RpEchoOk => go
+        | RpEchoBad => (RpRejEchoBad, a)
+        | RpEchoNone => (RpRejChallenge, a)
         end
       else go
     end.
